@@ -20,6 +20,7 @@ import Statrs.Gen.D_erlang
 namespace Statrs.Props.C02
 open Statrs Statrs.Gen Statrs.Spec.Incomplete Statrs.Lemmas.SpecialCdf
 
+section RealCarrier
 variable [SF ℝ]
 
 /-! ## Gamma (shape > 0, rate > 0): cdf = P(shape, x·rate), sf = Q(shape, x·rate) -/
@@ -418,5 +419,41 @@ theorem poisson_sf_antitone_rel (T : GammaShiftSpec) (d : Poisson ℝ) (hl : 0 <
   rw [poisson_sf_real, poisson_sf_real]; exact poisson_lr_step T hi hl
 
 example : ∃ d : Poisson ℝ, 0 < d.f_lambda := ⟨⟨2.5⟩, by norm_num⟩
+
+end RealCarrier
+
+/-! ## Every carrier: Gamma / Erlang with an INFINITE rate (accepted by `Gamma::new` when the shape is
+  finite).  Pure branch logic, so valid for IEEE `Float`. -/
+section AnyCarrier
+variable {α : Type} [Add α] [Sub α] [Mul α] [Div α] [Neg α] [LT α] [LE α] [BEq α] [DecidableLT α]
+  [DecidableLE α] [OfScientific α] [Inhabited α] [RFun α] [SF α]
+
+/-- for x > 0 the sf is 0 if `ulps_eq!(x, shape)` and 1 otherwise -/
+theorem gamma_sf_infinite_rate (d : Gamma α) (x : α) (h0 : ¬ x ≤ (0.0 : α))
+    (hr : RFun.isInf d.f_rate = true) :
+    Gamma.sf d x = if RFun.ulpsEq x d.f_shape = true then (0.0 : α) else (1.0 : α) := by
+  unfold Gamma.sf; simp [h0, hr]
+
+/-- C02 ("sf never increases") fails for Gamma with infinite rate: sf is 0 at the shape and back to 1
+    at every larger argument not `ulps_eq` to it (including +inf).  The override is still the mirror
+    image of the cdf (which has the same defect, `C01.gamma_cdf_infinite_rate_counterexample`).
+    [observed on the crate: `Gamma::new(10.0, INF)`: sf(10.0) = 0, sf(11.0) = 1] -/
+theorem gamma_sf_infinite_rate_counterexample (d : Gamma α) (x y : α)
+    (hr : RFun.isInf d.f_rate = true)
+    (hx0 : ¬ x ≤ (0.0 : α)) (hy0 : ¬ y ≤ (0.0 : α))
+    (hx : RFun.ulpsEq x d.f_shape = true) (hy : RFun.ulpsEq y d.f_shape = false) :
+    Gamma.sf d x = (0.0 : α) ∧ Gamma.sf d y = (1.0 : α) := by
+  rw [gamma_sf_infinite_rate d x hx0 hr, gamma_sf_infinite_rate d y hy0 hr]
+  simp [hx, hy]
+
+/-- the same defect reaches Erlang -/
+theorem erlang_sf_infinite_rate_counterexample (d : Erlang α) (x y : α)
+    (hr : RFun.isInf d.f_g.f_rate = true)
+    (hx0 : ¬ x ≤ (0.0 : α)) (hy0 : ¬ y ≤ (0.0 : α))
+    (hx : RFun.ulpsEq x d.f_g.f_shape = true) (hy : RFun.ulpsEq y d.f_g.f_shape = false) :
+    Erlang.sf d x = (0.0 : α) ∧ Erlang.sf d y = (1.0 : α) :=
+  gamma_sf_infinite_rate_counterexample d.f_g x y hr hx0 hy0 hx hy
+
+end AnyCarrier
 
 end Statrs.Props.C02
